@@ -227,6 +227,49 @@ def check_multi(rec, mod, g):
                 config.RUNTIME_TYPE_CHECK = False
             if got != exp:
                 rec.violation("C13|multi|invalid_fields", case, f"invalid fields {got}, expected exactly {exp}")
+    check_wide(rec, mod, g)
+
+
+WIDE_FIELDS = [(f"p{i:02d}", "int", "1", "'x'") for i in range(6)] + [(f"k{i:02d}", "Optional[N1]", "None", "7") for i in range(6, 10)] + \
+    [("t10", "tuple[N1, ...]", "()", "(1,)"), ("s11", "str", "'s'", "None"), ("b12", "bool", "True", "1"), ("f13", "float", "1", "'1.0'")]
+
+
+def check_wide(rec, mod, g):
+    """A node with 14 fields (+ origin): for EVERY subset of fields holding a non-conforming value (any number of them,
+    from none to all 15) invalid_fields is exactly that subset."""
+    name = f"YW{next(_counter)}"
+    src = "@dataclass(frozen=True)\nclass " + name + "(ASTNode):\n" + "".join(f"    {n}: {a} = {ok}\n" for n, a, ok, _ in WIDE_FIELDS)
+    exec(compile(src, f"<c13:{name}>", "exec", dont_inherit=True), mod.__dict__)
+    cls = mod.__dict__[name]
+    good = {n: eval(ok, mod.__dict__) for n, _, ok, _ in WIDE_FIELDS}
+    bad = {n: eval(b, mod.__dict__) for n, _, _, b in WIDE_FIELDS}
+    good["origin"], bad["origin"] = NO_ORIGIN, "x"
+    names = list(good)
+    sw = _SW[0] or {}
+    full = not any(sw.values())
+    for size in range(len(names) + 1):
+        if not full and 1 < size < 10:
+            continue
+        for sub in itertools.combinations(names, size):
+            exp = sorted(sub)
+            rec.count("transitions")
+            rec.count("evaluations")
+            NODE_REGISTRY.clear()
+            config.RUNTIME_TYPE_CHECK = True
+            try:
+                cls(**{n: (bad[n] if n in sub else good[n]) for n in names})
+                got = []
+            except InvalidTypes as e:
+                got = sorted(f.name for f in e.invalid_fields)
+            except Exception as e:  # noqa: BLE001
+                got = [f"<{type(e).__name__}>"]
+            finally:
+                config.RUNTIME_TYPE_CHECK = False
+            if got != exp:
+                rec.rank = size
+                rec.violation("C13|multi|invalid_fields|wide", {**_swc(), "multi": True, "wide": exp}, f"{len(exp)} non-conforming fields {exp}, reported {got}")
+        rec.count("traces")
+    forget(cls)
 
 
 HIER = '''
